@@ -123,9 +123,14 @@ func checkC12(c *Ctx) {
 			fns = append(fns, fn)
 		}
 		sort.Strings(fns)
+		helpers := helpersOfAllowed(u, corePkgs, func(name string) bool { _, ok := allowed[name]; return ok })
 		for _, fn := range fns {
 			nW++
 			_, ok := allowed[fn]
+			if !ok && helpers[fn] {
+				// a helper split off an owner (all its call sites lie in owners)
+				ok = true
+			}
 			pos := ""
 			if len(w[field][fn]) > 0 {
 				if fnU := w[field][fn][0]; fnU != nil {
